@@ -310,7 +310,7 @@ RULE = ("each request (plain QUERY, RD random, with or without an OPT advertisin
 CHECK = {
     "property": "C04",
     "props": "Props/C04.v",
-    "theorems": ["c04_tc_on_the_octets", "c04_only_optional_omitted_partial", "c04_glue_complete_partial", "c04_optional_only_partial", "c04_response_within_limit", "c04_tc_shape", "c04_limit_value", "c04_udp_response_size", "c04_udp_identical_when_fits_partial", "c04_writer_limit_monotone", "c04_oracle_tc_shape",
+    "theorems": ["c04_tc_on_the_octets", "c04_clause_iv", "c04_endings_on_the_octets", "c04_only_optional_omitted_partial", "c04_glue_complete_partial", "c04_optional_only_partial", "c04_response_within_limit", "c04_tc_shape", "c04_limit_value", "c04_udp_response_size", "c04_udp_identical_when_fits_partial", "c04_writer_limit_monotone", "c04_oracle_tc_shape",
                  "c04_oracle_sizes_and_identity"],
     "allowed_axioms": [],
     "suites": [{
@@ -357,7 +357,9 @@ MANIFEST = {
                    "Writer, the decoded answer and authority sections are those of the idealised never-truncating run of the same "
                    "logic — C05's object, equal to the RFC resolution algorithm `resolve` — and the decoded additional section is the "
                    "idealised one minus some records of its optional tail (then only the OPT): this also closes C05's gap between "
-                   "the octet-level answer and `resolve`; and — clause (iii) for answers that end Ok — if the finished TCP message fits the UDP space the UDP "
+                   "the octet-level answer and `resolve`; c04_endings_on_the_octets + c04_clause_iv turn the premise into the decoded "
+                   "bits: a response with TC clear and RCODE other than SERVFAIL is exactly one whose answering logic succeeded, "
+                   "hence it differs from the complete answer only by omitted additional records; and — clause (iii) for answers that end Ok — if the finished TCP message fits the UDP space the UDP "
                    "response is octet-identical (Writer limit-monotonicity + a relational lifting over the query model). PARTIAL: "
                    "clause (iii) for answers ending in SERVFAIL after partial writes (false there: known finding C04-1) and the "
                    "the literal two-run comparison of clause (iv) (the theorems above characterise each response against the idealised "
